@@ -486,6 +486,22 @@ func (in *Interp) formatVerb(verb byte, flags string, arg Value) Str {
 			}
 			return Str{S: fmt.Sprintf("%"+flags+string(verb), gv)}
 		}
+		// symbolic wide integer with %02x / %.2x: two hex digits when the value is known to fit a byte
+		if (x.S.K == KBV && x.S.W > 8 || x.S.K == KInt) && verb == 'x' && (flags == "02" || flags == ".2") {
+			var fits *Term
+			var lowb *Term
+			if x.S.K == KInt {
+				fits = in.tb.And(in.tb.IBin(OILe, in.tb.IntConst(big.NewInt(0)), x), in.tb.IBin(OILe, x, in.tb.IntConst(big.NewInt(255))))
+				lowb = in.tb.Int2BV(x, 8)
+			} else {
+				fits = in.tb.Cmp(OUle, x, in.tb.BVConst(int(x.S.W), 255))
+				lowb = in.tb.Extract(x, 7, 0)
+			}
+			if in.decide(in.curFrame, nil, fits) {
+				return in.hexOfBytes([]Value{lowb})
+			}
+			return opaqueStr()
+		}
 		// symbolic byte with %02x / %.2x: two hex digits
 		if x.S.K == KBV && x.S.W == 8 && verb == 'x' && (flags == "02" || flags == ".2") {
 			return in.hexOfBytes([]Value{x})
